@@ -19,3 +19,13 @@ Proof.
   split; [vm_compute; reflexivity|]. split; [vm_compute; reflexivity|].
   eexists. split; [vm_compute; reflexivity|]. split; vm_compute; auto.
 Qed.
+
+(* follow sets of the same grammar: the loop terminates, the end marker (token 0) follows the start
+   body, and B (token 2) follows the reference to rule a *)
+Example ex_follow :
+  exists fi fo lf, calc_first ex_g 50 = Some fi /\ calc_follow ex_g fi 50 = Some (fo, lf)
+                   /\ mem (T 0) (get fo 1) = true /\ get fo 3 = [T 2].
+Proof.
+  eexists. eexists. eexists. split; [vm_compute; reflexivity|]. split; [vm_compute; reflexivity|].
+  split; vm_compute; reflexivity.
+Qed.
